@@ -34,6 +34,17 @@ func init() {
 	for _, n := range reservedNames {
 		_reservedNames[n] = struct{}{}
 	}
+
+	// Predeclared identifiers used by the generated code: an import with
+	// one of these names would shadow them.
+	shadowed := []string{
+		"bool", "byte", "string", "int", "int8", "int16", "int32", "int64",
+		"float64", "nil", "true", "false", "append", "cap", "copy", "delete",
+		"len", "make", "new", "panic",
+	}
+	for _, n := range shadowed {
+		_reservedNames[n] = struct{}{}
+	}
 }
 
 // IsReservedKeyword returns true if the given word is a reserved keyword.
